@@ -443,6 +443,9 @@ Proof.
 Qed.
 Theorem full_statement_iff_switch : fixed_D08b = true -> C12_full_statement.
 Proof. intros Hsw s r Hwf. now apply (jac_refines_full Qc QcO QcO_ring Hsw). Qed.
+(* the property without any guard (the repair D64 of defect D08b is in the code: switch fixed_D08b = true) *)
+Theorem full_statement : C12_full_statement.
+Proof. exact (full_statement_iff_switch eq_refl). Qed.
 Theorem full_statement_refuted_while_open : fixed_D08b = false -> ~ C12_full_statement.
 Proof. intros Hsw H. apply D08b_open_refuted. intros s r Hwf. specialize (H s r Hwf). unfold jac_impl in H. now rewrite Hsw in H. Qed.
 (* the code before fix D08: x' = -x, z' = k * past(z, tau) (0 = x, 1 = z, 2 = k, 3 = tau): the entry d z'/d z(t - tau) = k was
